@@ -16,7 +16,7 @@ FLOORS = {"op=cumsum": (30, 30), "op=cumprod": (30, 30), "op=diff": (500, 500), 
 
 def tlc_jobs(tier, seed):
     return [dict(tag=tier, module="MC_C09",
-                 cfg=dict(constants=dict(MaxLen=(4 if tier == "quick" else 5), MaxDim=(3 if tier == "quick" else 4), ArgDim=(2 if tier == "quick" else 3), Emit=True),
+                 cfg=dict(constants=dict(MaxLen=(4 if tier == "quick" else 5), MaxDim=(3 if tier == "quick" else 4), ArgDim=3, Emit=True),
                           invariants=["CumKeepsAxes", "DiffAxis", "ArgLaw"]),
                  run=dict(timeout=3000))]
 
